@@ -14,7 +14,10 @@ STRESS = {'BensonGA': ['C1CCOCC1', 'c1ccccc1', 'Cc1ccccc1', 'C1COCCO1', 'CC=CC',
 def run(ctx):
     ctx.assumptions += [
         'the additivity is decided on the implementation for generated pairs / triples / self-pairs; theorem side: no shipped scheme uses a '
-        'molecule-level prefix (finite, regenerated) which is what makes matching component-local; descriptors_union of DESIGN 5/C04 is not yet a theorem',
+        'molecule-level prefix (finite, regenerated) which is what makes matching component-local',
+        'theorems C04_groups_additive, C04_correction_descriptors_additive, C04_descriptors_additive (Graph/Descr_equiv.v): groups and correction '
+        'descriptors of the disjoint union add entry-wise after remaps; the returned dictionary adds when no occurring correction-descriptor name is '
+        'also an occurring group name (groups.update(descriptors) replaces, it does not add - hypothesis names_apart)',
         'RDKit: the ring list of a disconnected molecule is the union of the components\' ring lists (external)']
     rng = ctx.rng
     jobs, meta = [], []
